@@ -142,6 +142,221 @@ class Program:
             self._index(m)
         for c in self.classes.values():
             self._resolve_bases(c)
+        self._expand_decorators()
+
+    # ------------------------------------------------- decorators looked through
+    def _expand_decorators(self) -> None:
+        """A function whose only decorator is a plain wrapper of the program
+
+            def deco(fn):
+                @functools.wraps(fn)
+                def wrapper(a, b, *args, **kwargs):
+                    <statements that do not mention fn / args / kwargs>
+                    return fn(a, b, *args, **kwargs)
+                return wrapper
+
+        is the function with those statements in front of its body (the
+        wrapper's named parameters are the function's leading parameters).
+        Anything else stays a decorated function, which the rules treat as
+        not looked through."""
+        import copy
+        for f in list(self.functions.values()):
+            node = f.node
+            decs = getattr(node, "decorator_list", None)
+            if not decs or len(decs) != 1 or not isinstance(
+                    decs[0], ast.Name):
+                continue
+            d = f.module.functions.get(decs[0].id)
+            if d is None or d is f or d.node.decorator_list:
+                continue
+            pre = self._wrapper_prologue(d, f)
+            if pre is None:
+                adapted = self._wrapper_adapter(d, f)
+                if adapted is None:
+                    continue
+                pre, node.args = adapted
+            doc = []
+            body = list(node.body)
+            if body and isinstance(body[0], ast.Expr) and isinstance(
+                    body[0].value, ast.Constant) and isinstance(
+                    body[0].value.value, str):
+                doc, body = body[:1], body[1:]
+            node.body = doc + pre + body
+            node.decorator_list = []
+            f.decorators = ()
+            f.expanded_decorator = d.qualname
+
+    @staticmethod
+    def _wrapper_prologue(d: Function, f: Function):
+        import copy
+        a = d.node.args
+        if len(a.posonlyargs + a.args) != 1 or a.vararg or a.kwarg or \
+                a.kwonlyargs or a.defaults:
+            return None
+        fn_name = (a.posonlyargs + a.args)[0].arg
+        body = [st for st in d.node.body if not (
+            isinstance(st, ast.Expr) and isinstance(st.value, ast.Constant))]
+        if len(body) != 2 or not isinstance(body[0], ast.FunctionDef) or \
+                not (isinstance(body[1], ast.Return) and isinstance(
+                    body[1].value, ast.Name) and
+                    body[1].value.id == body[0].name):
+            return None
+        w = body[0]
+        for dec in w.decorator_list:
+            if not (isinstance(dec, ast.Call) and ast.unparse(
+                    dec.func).split(".")[-1] == "wraps"):
+                return None
+        wa = w.args
+        if wa.kwonlyargs or wa.defaults or wa.posonlyargs:
+            return None
+        named = [x.arg for x in wa.args]
+        fparams = f.params
+        if len(named) > len(fparams):
+            return None
+        wbody = [st for st in w.body if not (
+            isinstance(st, ast.Expr) and isinstance(st.value, ast.Constant)
+            and isinstance(st.value.value, str))]
+        if not wbody or not isinstance(wbody[-1], ast.Return):
+            return None
+        call = wbody[-1].value
+        if not (isinstance(call, ast.Call) and isinstance(call.func, ast.Name)
+                and call.func.id == fn_name):
+            return None
+        # the call hands the wrapper's parameters on, in order
+        want = [("n", x) for x in named]
+        if wa.vararg:
+            want.append(("*", wa.vararg.arg))
+        got = []
+        for x in call.args:
+            if isinstance(x, ast.Name):
+                got.append(("n", x.id))
+            elif isinstance(x, ast.Starred) and isinstance(x.value, ast.Name):
+                got.append(("*", x.value.id))
+            else:
+                return None
+        kw_ok = (len(call.keywords) == 1 and call.keywords[0].arg is None and
+                 isinstance(call.keywords[0].value, ast.Name) and wa.kwarg and
+                 call.keywords[0].value.id == wa.kwarg.arg) or \
+            (not call.keywords and not wa.kwarg)
+        if got != want or not kw_ok:
+            return None
+        if (len(named) < len(fparams) or f.kwonly) and not (
+                wa.vararg and wa.kwarg):
+            return None
+        rename = dict(zip(named, fparams))
+        hidden = {fn_name, w.name}
+        if wa.vararg:
+            hidden.add(wa.vararg.arg)
+        if wa.kwarg:
+            hidden.add(wa.kwarg.arg)
+        pre = [copy.deepcopy(st) for st in wbody[:-1]]
+        fp_all = set(fparams) | set(f.kwonly)
+        va, ka = f.node.args.vararg, f.node.args.kwarg
+        if va:
+            fp_all.add(va.arg)
+        if ka:
+            fp_all.add(ka.arg)
+        for st in pre:
+            for x in ast.walk(st):
+                if isinstance(x, (ast.FunctionDef, ast.AsyncFunctionDef,
+                                  ast.Lambda, ast.ClassDef, ast.Yield,
+                                  ast.YieldFrom, ast.Global, ast.Nonlocal,
+                                  ast.Await)):
+                    return None
+                if isinstance(x, ast.Name):
+                    if x.id in hidden:
+                        return None
+                    if x.id in rename:
+                        x.id = rename[x.id]
+                        if isinstance(x.ctx, (ast.Store, ast.Del)):
+                            return None      # re-binds a parameter
+                    elif isinstance(x.ctx, (ast.Store, ast.Del)) and \
+                            x.id in fp_all:
+                        return None          # would clobber a parameter
+                    elif isinstance(x.ctx, ast.Load) and x.id in fp_all and \
+                            x.id not in rename.values():
+                        return None          # a global of that name, hidden
+                        #                      by the function's parameter
+        return pre
+
+    @staticmethod
+    def _wrapper_adapter(d: Function, f: Function):
+        """the wrapper has its own signature and computes the function's
+        arguments first:
+
+            def wrapper(self, data):
+                <statements>; a, b = data
+                return fn(self, a, b)
+
+        -> (statements, wrapper's signature), when the call names exactly the
+        function's parameters (after a consistent renaming)"""
+        import copy
+        a = d.node.args
+        if len(a.posonlyargs + a.args) != 1 or a.vararg or a.kwarg or \
+                a.kwonlyargs or a.defaults:
+            return None
+        fn_name = (a.posonlyargs + a.args)[0].arg
+        body = [st for st in d.node.body if not (
+            isinstance(st, ast.Expr) and isinstance(st.value, ast.Constant))]
+        if len(body) != 2 or not isinstance(body[0], ast.FunctionDef) or \
+                not (isinstance(body[1], ast.Return) and isinstance(
+                    body[1].value, ast.Name) and
+                    body[1].value.id == body[0].name):
+            return None
+        w = body[0]
+        for dec in w.decorator_list:
+            if not (isinstance(dec, ast.Call) and ast.unparse(
+                    dec.func).split(".")[-1] == "wraps"):
+                return None
+        wa = w.args
+        if wa.vararg or wa.kwarg or wa.kwonlyargs or wa.posonlyargs:
+            return None
+        fa = f.node.args
+        if fa.vararg or fa.kwarg or fa.kwonlyargs or fa.defaults or \
+                fa.posonlyargs:
+            return None
+        wbody = [st for st in w.body if not (
+            isinstance(st, ast.Expr) and isinstance(st.value, ast.Constant)
+            and isinstance(st.value.value, str))]
+        if not wbody or not isinstance(wbody[-1], ast.Return):
+            return None
+        call = wbody[-1].value
+        if not (isinstance(call, ast.Call) and isinstance(call.func, ast.Name)
+                and call.func.id == fn_name) or call.keywords or \
+                not all(isinstance(x, ast.Name) for x in call.args):
+            return None
+        fparams = f.params
+        given = [x.id for x in call.args]
+        if len(given) != len(fparams) or len(set(given)) != len(given):
+            return None
+        rename = {g: p_ for g, p_ in zip(given, fparams) if g != p_}
+        pre = [copy.deepcopy(st) for st in wbody[:-1]]
+        wargs = copy.deepcopy(wa)
+        used = {x.id for st in pre for x in ast.walk(st)
+                if isinstance(x, ast.Name)} | {x.arg for x in wargs.args}
+        if any(t in used for t in rename.values()):
+            return None              # the new name already means something
+        if fn_name in used or w.name in used:
+            return None
+        for st in pre:
+            for x in ast.walk(st):
+                if isinstance(x, (ast.FunctionDef, ast.AsyncFunctionDef,
+                                  ast.Lambda, ast.ClassDef, ast.Yield,
+                                  ast.YieldFrom, ast.Global, ast.Nonlocal,
+                                  ast.Await)):
+                    return None
+                if isinstance(x, ast.Name) and x.id in rename:
+                    x.id = rename[x.id]
+        for x in wargs.args:
+            if x.arg in rename:
+                x.arg = rename[x.arg]
+        # every parameter of the function is bound when its body starts
+        bound = {x.arg for x in wargs.args} | {
+            x.id for st in pre for x in ast.walk(st)
+            if isinstance(x, ast.Name) and isinstance(x.ctx, ast.Store)}
+        if not set(fparams) <= bound:
+            return None
+        return pre, wargs
 
     # ------------------------------------------------------------------ load
     def _load(self, path: str) -> None:
@@ -338,6 +553,13 @@ class Program:
 
     def func(self, q: str) -> Function:
         f = self.functions.get(self.canonical(q))
+        if f is None:
+            # a method that moved up into a base class / mixin of its class:
+            # what `Class.name` executes
+            cq, _, name = self.canonical(q).rpartition(".")
+            c = self.classes.get(cq)
+            if c is not None:
+                f = self.find_method(c, name)
         if f is None:
             raise AnalysisError(f"anchor function vanished: {q}")
         return f
